@@ -1,2 +1,267 @@
-/- placeholder: the C06 driver is not built yet -/
-def main : IO Unit := IO.println "C06: driver not built yet"
+/-
+C06 line-protocol driver: prints `model <TAB> spec` for each case line.
+
+Elements are integers `100*key + tag` (the tag gives every element an identity, so stability and
+"which of two equivalent elements" are observable); comparators, binary and unary predicates look
+at the key only:  cmp = less|dflt, greater, mod3 (key%3);  eq = eq|dflt, eqmod (key%2);  p = bit mask
+over the keys.  `a=[..] f= l=` is the storage and the range in it (context elements have key 7),
+`b=[..]` a second range (whole list), iterator results are printed as indices into `a`.
+Positions the standard leaves unspecified are printed as `_` by all four sides.
+-/
+import Tetl.Proto
+import Tetl.C06.Model
+import Tetl.C06.Spec
+namespace Tetl.C06.Driver
+open Tetl Tetl.Proto
+
+abbrev E := Int
+def key (e : E) : Int := e / 100
+def cmpOf (s : String) : E → E → Bool :=
+  if s == "greater" then fun x y => key x > key y
+  else if s == "mod3" then fun x y => key x % 3 < key y % 3
+  else fun x y => key x < key y
+/-- class of an element under the comparator's equivalence -/
+def clsOf (s : String) (e : E) : Int := if s == "mod3" then key e % 3 else key e
+def eqOf (s : String) : E → E → Bool :=
+  if s == "eqmod" then fun x y => key x % 2 == key y % 2 else fun x y => key x == key y
+def predOf (mask : Nat) (e : E) : Bool := (mask >>> (key e).toNat) % 2 == 1
+
+def fmtE {α : Type} (g : α → String) : Except Err α → String
+  | .ok x => g x
+  | .error e => e.fmt
+
+def fmtOpt (l : List (Option Int)) : String :=
+  "[" ++ ",".intercalate (l.map fun | some i => toString i | none => "_") ++ "]"
+/-- the storage with positions `[lo,hi)` masked -/
+def fmtMask (a : List E) (lo hi : Nat) : String :=
+  fmtOpt ((List.range a.length).zip a |>.map fun (i, x) => if lo ≤ i && i < hi then none else some x)
+def sorted (l : List Int) : List Int := l.mergeSort (fun x y => x ≤ y)
+def fmtIdx (n : Nat) : String := s!"r={n}"
+def fmtB (b : Bool) : String := s!"r={fmtBool b}"
+
+structure Args where
+  a : List E
+  f : Nat
+  l : Nat
+  b : List E
+  m : Nat
+  d : Nat
+  n : Int
+  v : E
+  w : E
+  p : Nat
+  cmp : String
+  eq : String
+  it : String
+  ov : String
+  op : String
+  init : Int
+
+def getArgs (ln : Line) : Args :=
+  let a := (ln.list? "a").getD []
+  { a := a, f := (ln.nat? "f").getD 0, l := (ln.nat? "l").getD a.length, b := (ln.list? "b").getD [],
+    m := (ln.nat? "m").getD 0, d := (ln.nat? "d").getD 0, n := (ln.int? "n").getD 0, v := (ln.int? "v").getD 0,
+    w := (ln.int? "w").getD 0, p := (ln.nat? "p").getD 0, cmp := (ln.str? "cmp").getD "dflt",
+    eq := (ln.str? "eq").getD "dflt", it := (ln.str? "it").getD "ptr", ov := (match ln.get? "ov" with | some (.int i) => toString i | some (.str s) => s | _ => ""),
+    op := (ln.str? "op").getD "dflt", init := (ln.int? "init").getD 0 }
+
+/-- canonical form of an unstable sort result: classes in order, the elements as a multiset, the context -/
+def canonSort (cmp : String) (a : List E) (f l : Nat) : String :=
+  let r := slice a f l
+  s!"c={fmtList (r.map (clsOf cmp))} s={fmtList (sorted r)} a={fmtMask a f l}"
+def canonNth (cmp : String) (a : List E) (f m l : Nat) : String :=
+  let r := slice a f l
+  let k := m - f
+  let nth := match r[k]? with | some x => toString (clsOf cmp x) | none => "-"
+  s!"lo={fmtList (sorted ((r.take k).map (clsOf cmp)))} nth={nth} hi={fmtList (sorted ((r.drop (k + 1)).map (clsOf cmp)))} s={fmtList (sorted r)} a={fmtMask a f l}"
+def canonPartial (cmp : String) (a : List E) (f m l : Nat) : String :=
+  let r := slice a f l
+  let k := m - f
+  s!"c={fmtList ((r.take k).map (clsOf cmp))} hi={fmtList (sorted ((r.drop k).map (clsOf cmp)))} s={fmtList (sorted r)} a={fmtMask a f l}"
+def canonPartition (a : List E) (f l r : Nat) : String :=
+  s!"r={r} lo={fmtList (sorted (slice a f r))} hi={fmtList (sorted (slice a r l))} a={fmtMask a f l}"
+
+def genF (k : Nat) : Int := 100 + 10 * Int.ofNat k
+
+def numOp (s : String) : Int → Int → Int :=
+  if s == "minus" then fun x y => x - y else if s == "mul2" then fun x y => 2 * x + y else fun x y => x + y
+
+def step (_ : Unit) (ln : Line) : Unit × String :=
+  let bad := ((), "bad-op\tbad-op")
+  let out (m s : String) := ((), m ++ "\t" ++ s)
+  let g := getArgs ln
+  let a := g.a; let f := g.f; let l := g.l; let b := g.b; let h := b.length
+  if !(f ≤ l && l ≤ a.length) then bad else
+  let R := slice a f l
+  let lt := cmpOf g.cmp; let eqf := eqOf g.eq; let p := predOf g.p
+  let idx (m : Except Err Nat) (s : Nat) := out (fmtE fmtIdx m) (fmtIdx (f + s))
+  let boo (m : Except Err Bool) (s : Bool) := out (fmtE fmtB m) (fmtB s)
+  let lst (m : Except Err (List E)) (s : List E) := out (fmtE fmtList m) (fmtList s)
+  let arr (m : Except Err (List E)) (s : List E) := out (fmtE (fun x => "a=" ++ fmtList x) m) ("a=" ++ fmtList (splice a f l s))
+  match ln.op with
+  | "find" => idx (find eqf g.v a f l) (Spec.findIdx (fun x => eqf x g.v) R)
+  | "find_if" => idx (findIf p a f l) (Spec.findIdx p R)
+  | "find_if_not" => idx (findIfNot p a f l) (Spec.findIdx (fun x => !p x) R)
+  | "all_of" => boo (allOf p a f l) (R.all p)
+  | "any_of" => boo (anyOf p a f l) (R.any p)
+  | "none_of" => boo (noneOf p a f l) (!R.any p)
+  | "count" => out (fmtE fmtIdx (count eqf g.v a f l)) (fmtIdx (Spec.count (fun x => eqf x g.v) R))
+  | "count_if" => out (fmtE fmtIdx (countIf p a f l)) (fmtIdx (Spec.count p R))
+  | "for_each" => lst (forEach a f l) R
+  | "for_each_n" =>
+    out (fmtE (fun (r : Nat × List E) => s!"r={r.1} v={fmtList r.2}") (forEachN a f l g.n))
+      s!"r={f + g.n.toNat} v={fmtList (R.take g.n.toNat)}"
+  | "adjacent_find" => idx (adjacentFind eqf a f l) (Spec.adjacentFind eqf R)
+  | "is_sorted" => boo (isSorted lt a f l) (Spec.isSortedUntil lt R == R.length)
+  | "is_sorted_until" => idx (isSortedUntil lt a f l) (Spec.isSortedUntil lt R)
+  | "is_partitioned" => boo (isPartitioned p a f l) (Spec.isPartitioned p R)
+  | "partition_point" => idx (partitionPoint p a f l) (Spec.partitionPoint p R)
+  | "min_element" => idx (minElement lt a f l) (Spec.minElement lt R)
+  | "max_element" => idx (maxElement lt a f l) (Spec.maxElement lt R)
+  | "minmax_element" =>
+    out (fmtE (fun (r : Nat × Nat) => s!"r={r.1},{r.2}") (minmaxElement lt a f l))
+      s!"r={f + Spec.minElement lt R},{f + Spec.maxElementLast lt R}"
+  | "min" => out s!"r={min2 lt g.v g.w}" s!"r={Spec.min2 lt g.v g.w}"
+  | "max" => out s!"r={max2 lt g.v g.w}" s!"r={Spec.max2 lt g.v g.w}"
+  | "minmax" =>
+    let r := minmax2 lt g.v g.w
+    out s!"r={r.1},{r.2}" s!"r={Spec.min2 lt g.v g.w},{Spec.max2 lt g.w g.v}"
+  | "clamp" =>
+    match ln.int? "lo", ln.int? "hi" with
+    | some lo, some hi => out s!"r={clamp lt g.v lo hi}" s!"r={Spec.clamp lt g.v lo hi}"
+    | _, _ => bad
+  | "lower_bound" => idx (lowerBound lt g.v a f l) (Spec.lowerBound lt g.v R)
+  | "upper_bound" => idx (upperBound lt g.v a f l) (Spec.upperBound lt g.v R)
+  | "equal_range" =>
+    out (fmtE (fun (r : Nat × Nat) => s!"r={r.1},{r.2}") (equalRange lt g.v a f l))
+      s!"r={f + Spec.lowerBound lt g.v R},{f + Spec.upperBound lt g.v R}"
+  | "binary_search" => boo (binarySearch lt g.v a f l) (Spec.binarySearch lt g.v R)
+  | "search" => idx (search eqf a f l b) (Spec.search eqf R b)
+  | "find_end" => idx (findEnd eqf a f l b) (Spec.findEnd eqf R b)
+  | "search_n" => idx (searchN eqf a f l g.n g.v) (Spec.searchN eqf R g.n g.v)
+  | "find_first_of" => idx (findFirstOf eqf a f l b) (Spec.findFirstOf eqf R b)
+  | "mismatch" =>
+    let m := if g.ov == "4" then mismatch4 eqf a f l b 0 h else mismatch3 eqf a f l b 0 h
+    let s := Spec.mismatch eqf R b
+    out (fmtE (fun (r : Nat × Nat) => s!"r={r.1},{r.2}") m) s!"r={f + s},{s}"
+  | "equal" =>
+    if g.ov == "4" then
+      boo (if g.it == "ptr" then equal4RA eqf a f l b 0 h else equal4Fwd eqf a f l b 0 h) (Spec.equal eqf R b)
+    else boo (equal3 eqf a f l b 0 h) (Spec.equal eqf R (b.take R.length))
+  | "lexicographical_compare" => boo (lexicographicalCompare lt a f l b 0 h) (Spec.lexLt lt R b)
+  | "is_permutation" =>
+    if g.ov == "4" then boo (isPermutation4 eqf a f l b 0 h) (Spec.isPermutation eqf R b)
+    else boo (isPermutation3 eqf a f l b 0 h) (Spec.isPermutation eqf R (b.take R.length))
+  | "includes" => boo (includes lt a f l b 0 h) (Spec.includes lt R b)
+  -- modifying, in place
+  | "rotate" =>
+    let s := Spec.rotate R (g.m - f)
+    out (fmtE (fun (r : List E × Nat) => s!"r={r.2} a={fmtList r.1}") (rotate a f g.m l))
+      s!"r={f + s.2} a={fmtList (splice a f l s.1)}"
+  | "reverse" => arr (if g.it == "ptr" then reverseRA a f l else reverseBidi a f l) R.reverse
+  | "swap_ranges" =>
+    let n := l - f
+    out (fmtE (fun (r : List E × List E × Nat) => s!"r={r.2.2} a={fmtList r.1} b={fmtList r.2.1}") (swapRanges a f l b 0 h))
+      s!"r={n} a={fmtList (splice a f l (b.take n))} b={fmtList (R ++ b.drop n)}"
+  | "copy" | "move" =>
+    let n := l - f
+    let d := g.d
+    -- move: source positions that are not overwritten hold unspecified (moved-from) values
+    let mk (x : List E) := if ln.op == "move"
+      then fmtOpt ((List.range x.length).zip x |>.map fun (i, e) => if f ≤ i && i < l && !(d ≤ i && i < d + n) then none else some e)
+      else fmtList x
+    out (fmtE (fun (r : List E × Nat) => s!"r={r.2} a={mk r.1}") (copy a f l d))
+      s!"r={d + n} a={mk (splice a d (d + n) R)}"
+  | "copy_backward" | "move_backward" =>
+    let n := l - f
+    let d := g.d
+    let mk (x : List E) := if ln.op == "move_backward"
+      then fmtOpt ((List.range x.length).zip x |>.map fun (i, e) => if f ≤ i && i < l && !(d - n ≤ i && i < d) then none else some e)
+      else fmtList x
+    out (fmtE (fun (r : List E × Nat) => s!"r={r.2} a={mk r.1}") (copyBackward a f l d))
+      s!"r={d - n} a={mk (splice a (d - n) d R)}"
+  | "copy_if" => lst (copyIf p a f l) (R.filter p)
+  | "copy_n" => lst (copyN a f l g.n) (Spec.copyN R g.n)
+  | "remove_copy" => lst (removeCopy eqf g.v a f l) (Spec.remove (fun x => eqf x g.v) R)
+  | "remove_copy_if" => lst (removeCopyIf p a f l) (Spec.remove p R)
+  | "unique_copy" => lst (uniqueCopy eqf a f l) (Spec.unique eqf R)
+  | "reverse_copy" => lst (reverseCopy a f l) R.reverse
+  | "rotate_copy" => lst (rotateCopy a f g.m l) (Spec.rotate R (g.m - f)).1
+  | "transform" => lst (transform1 (fun x => x + 10) a f l) (R.map (fun x => x + 10))
+  | "transform2" => lst (transform2 (fun x y => x + 100 * y) a f l b 0 h) ((R.zip b).map (fun xy => xy.1 + 100 * xy.2))
+  | "partition_copy" =>
+    out (fmtE (fun (r : List E × List E) => s!"{fmtList r.1}|{fmtList r.2}") (partitionCopy p a f l))
+      s!"{fmtList (R.filter p)}|{fmtList (R.filter (fun x => !p x))}"
+  | "fill" => arr (fill a f l g.v) (R.map (fun _ => g.v))
+  | "fill_n" =>
+    out (fmtE (fun (r : List E × Nat) => s!"r={r.2} a={fmtList r.1}") (fillN a f l g.n g.v))
+      s!"r={f + g.n.toNat} a={fmtList (splice a f (f + g.n.toNat) (List.replicate g.n.toNat g.v))}"
+  | "generate" => arr (generate a f l genF) ((List.range R.length).map genF)
+  | "generate_n" =>
+    out (fmtE (fun (r : List E × Nat) => s!"r={r.2} a={fmtList r.1}") (generateN a f l g.n genF))
+      s!"r={f + g.n.toNat} a={fmtList (splice a f (f + g.n.toNat) ((List.range g.n.toNat).map genF))}"
+  | "replace" => arr (replace eqf g.v g.w a f l) (Spec.replace (fun x => eqf x g.v) g.w R)
+  | "replace_if" => arr (replaceIf p g.w a f l) (Spec.replace p g.w R)
+  | "iota" => arr (iota a f l g.v) (Spec.iota R.length g.v)
+  | "remove" | "remove_if" | "unique" =>
+    let m := if ln.op == "remove" then remove eqf g.v a f l else if ln.op == "remove_if" then removeIf p a f l else unique eqf a f l
+    let s := if ln.op == "remove" then Spec.remove (fun x => eqf x g.v) R else if ln.op == "remove_if" then Spec.remove p R else Spec.unique eqf R
+    out (fmtE (fun (r : List E × Nat) => s!"r={r.2} a={fmtMask r.1 r.2 l}") m)
+      s!"r={f + s.length} a={fmtMask (splice a f l (s ++ R.drop s.length)) (f + s.length) l}"
+  | "shift_left" =>
+    let m := if g.it == "ptr" then shiftLeftRA a f l g.n else shiftLeftFwd a f l g.n
+    let s := Spec.shiftLeft R g.n
+    let unspec (r : Nat) := if g.n ≤ 0 || g.n.toNat ≥ l - f then (r, r) else (r, l)
+    out (fmtE (fun (r : List E × Nat) => s!"r={r.2} a={fmtMask r.1 (unspec r.2).1 (unspec r.2).2}") m)
+      s!"r={f + s.2} a={fmtMask (splice a f l (s.1 ++ R.drop s.1.length)) (unspec (f + s.2)).1 (unspec (f + s.2)).2}"
+  | "shift_right" =>
+    let s := Spec.shiftRight R g.n
+    let unspec (r : Nat) := if g.n ≤ 0 || g.n.toNat ≥ l - f then (r, r) else (f, r)
+    let sa := if g.n ≤ 0 || g.n.toNat ≥ l - f then a else splice a f l (R.take s.2 ++ s.1)
+    out (fmtE (fun (r : List E × Nat) => s!"r={r.2} a={fmtMask r.1 (unspec r.2).1 (unspec r.2).2}") (shiftRight 0 a f l g.n))
+      s!"r={f + s.2} a={fmtMask sa (unspec (f + s.2)).1 (unspec (f + s.2)).2}"
+  | "partition" =>
+    let s := Spec.stablePartition p R
+    out (fmtE (fun (r : List E × Nat) => canonPartition r.1 f l r.2) (partition p a f l))
+      (canonPartition (splice a f l s.1) f l (f + s.2))
+  | "stable_partition" =>
+    let s := Spec.stablePartition p R
+    out (fmtE (fun (r : List E × Nat) => s!"r={r.2} a={fmtList r.1}") (stablePartition p a f l))
+      s!"r={f + s.2} a={fmtList (splice a f l s.1)}"
+  | "sort" | "gnome_sort" | "bubble_sort" | "exchange_sort" =>
+    let m := if ln.op == "bubble_sort" then bubbleSort lt a f l else if ln.op == "exchange_sort" then exchangeSort lt a f l
+      else gnomeSort lt a f l
+    out (fmtE (fun x => canonSort g.cmp x f l) m) (canonSort g.cmp (splice a f l (Spec.stableSort lt R)) f l)
+  | "nth_element" =>
+    out (fmtE (fun x => canonNth g.cmp x f g.m l) (nthElement lt a f g.m l))
+      (canonNth g.cmp (splice a f l (Spec.stableSort lt R)) f g.m l)
+  | "partial_sort" =>
+    out (fmtE (fun x => canonPartial g.cmp x f g.m l) (partialSort lt a f g.m l))
+      (canonPartial g.cmp (splice a f l (Spec.stableSort lt R)) f g.m l)
+  | "stable_sort" | "insertion_sort" => arr (insertionSort lt a f l) (Spec.stableSort lt R)
+  | "merge_sort" => arr (mergeSort lt a f l) (Spec.stableSort lt R)
+  | "inplace_merge" => arr (inplaceMerge lt a f g.m l) (Spec.merge lt (R.take (g.m - f)) (R.drop (g.m - f)))
+  | "merge" => lst (merge lt a f l b 0 h) (Spec.merge lt R b)
+  | "set_difference" => lst (setDifference lt a f l b 0 h) (Spec.setDifference lt R b)
+  | "set_intersection" => lst (setIntersection lt a f l b 0 h) (Spec.setIntersection lt R b)
+  | "set_symmetric_difference" => lst (setSymmetricDifference lt a f l b 0 h) (Spec.setSymmetricDifference lt R b)
+  | "set_union" => lst (setUnion lt a f l b 0 h) (Spec.setUnion lt R b)
+  -- numeric
+  | "accumulate" | "reduce" =>
+    out (fmtE (fun (r : Int) => s!"r={r}") (accumulate (numOp g.op) g.init a f l)) s!"r={Spec.accumulate (numOp g.op) g.init R}"
+  | "inner_product" | "transform_reduce" =>
+    let op1 := numOp g.op
+    let op2 : Int → Int → Int := if g.op == "dflt" then fun x y => x * y else fun x y => x - 2 * y
+    out (fmtE (fun (r : Int) => s!"r={r}") (innerProduct op1 op2 g.init a f l b 0 h)) s!"r={Spec.innerProduct op1 op2 g.init R b}"
+  | "transform_reduce1" =>
+    out (fmtE (fun (r : Int) => s!"r={r}") (transformReduce1 (numOp g.op) (fun x => 3 * x + 1) g.init a f l))
+      s!"r={Spec.accumulate (numOp g.op) g.init (R.map (fun x => 3 * x + 1))}"
+  | "partial_sum" => lst (partialSum (numOp g.op) a f l) (Spec.partialSum (numOp g.op) R)
+  | "adjacent_difference" =>
+    let op : Int → Int → Int := if g.op == "dflt" then fun x y => x - y else numOp g.op
+    lst (adjacentDifference op a f l) (Spec.adjacentDifference op R)
+  | _ => bad
+
+end Tetl.C06.Driver
+
+def main : IO Unit := Tetl.Proto.runDriver () Tetl.C06.Driver.step
